@@ -27,3 +27,14 @@ package main
 //@   safety none
 //@   oncall writeInplace: requires opt.inPlace
 //@   oncall writeWithTmpFile: requires !opt.inPlace
+
+//# tar -i: the index that is written carries the digest flag of the digest the chunk IDs were made with
+//# (ChunkStream's postcondition); adding the catar feature flags must not change that bit
+//@ func runTar
+//@   prop C02 C05
+//@   safety none
+//@   requires $wn >= 0
+//@   lit 1: requires $wn >= 0
+//# the chunker handed to ChunkStream was just made by NewChunker over a pipe nobody has read from yet
+//@   assume@before:ChunkStream wfChunker(&c) && len(desync.hashTable) == 256 && (forall b int :: 0 <= b && b < 256 ==> desync.hashTable[b] == tbl(b))
+//@   oncall storeCaibxFile: requires ($arg0.Index.FeatureFlags & desync.CaFormatSHA512256 != 0 <==> algOf(desync.Digest) == crypto.SHA512_256)
